@@ -155,14 +155,15 @@ def regenerate_hintsgen() -> tuple[bool, str]:
 
 GEN_PARTS = {"C02": ("trig", "TrigGen"), "C03": ("fetch", "FetchGen"), "C12": ("conn", "ConnGen"), "C16": ("for", "ForGen"), "C15": ("wf", "WfGen"), "C18": ("inj", "InjGen"),
              "C05": ("hit", "NodeHitGen"), "C10": ("lock", "NodeLockGen"), "C19": ("save", "StoreGen"), "C01": ("topo", "TopoGen"),
-             "C08": ("epi", "EpiGen"), "C06": ("epi", "EpiGen"), "C17": ("fn", "FnGen")}
+             "C08": ("epi", "EpiGen"), "C06": ("epi", "EpiGen"), "C17": ("fn", "FnGen"), "C11": ("tree", "TreeGen")}
 GEN_TOOL = {"for": ("py2gallina_for.py", "pyiron_workflow/nodes/for_loop.py"), "wf": ("py2gallina_wf.py", "pyiron_workflow/workflow.py"),
             "inj": ("py2gallina_inj.py", "pyiron_workflow/mixin/injection.py"),
             "hit": ("py2gallina_node.py", "pyiron_workflow/node.py"), "lock": ("py2gallina_node.py", "pyiron_workflow/node.py"),
             "save": ("py2gallina_store.py", "pyiron_workflow/storage.py"),
             "topo": ("py2gallina_topo.py", "pyiron_workflow/topology.py"),
             "epi": ("py2gallina_epi.py", "pyiron_workflow/node.py"),
-            "fn": ("py2gallina_fn.py", "pyiron_workflow/nodes/function.py")}     # default: py2gallina_chan.py on channels.py
+            "fn": ("py2gallina_fn.py", "pyiron_workflow/nodes/function.py"),
+            "tree": ("py2gallina_tree.py", "pyiron_workflow/topology.py")}     # default: py2gallina_chan.py on channels.py
 
 
 def generated_tie(prop: str) -> dict:
